@@ -127,6 +127,48 @@ def make(case):
     return run
 
 
+def make_array(case):
+    """Array of pointers (the compiled reader builds these by another path): every element dereferences in place."""
+    TT, cfg = case["target"], case["cfg"]
+    T = ["struct", "test", [["a", G.U8, None], ["p", ["arr", ["ptr", TT], 2], None], ["t", G.U8, None]], False]
+    cs, cls = H.load(T, cfg)
+    n = H.layout(cfg).size_align(T)[0] + 3
+
+    def run(ctx):
+        from dissect.cstruct.exceptions import NullPointerDereference
+        data = ctx.bytes("b", n)
+        s = ctx.stream(data)
+        try:
+            v = cls.read(s)
+        except Exception as e:  # noqa: BLE001
+            ctx.check("structure with a pointer array parses", False, H.classify(e))
+            return
+        ref = H.ref_parser(ctx, cfg)
+        rv, rpos = ref.parse(T, data, 0)
+        ctx.check("pointer array: element width and values", R.And(s.tell() == rpos, R.value_eq(T, v, rv)))
+        before = s.tell()
+        for i in range(2):
+            p = v.p[i]
+            ctx.check(f"element {i}: a pointer of the declared target type bound to the stream",
+                      p.__class__.type is cls.__fields__[1].type.type.type and p._stream is s)
+            try:
+                d = ("value", p.dereference())
+            except NullPointerDereference:
+                ctx.check(f"element {i}: only a null pointer raises the null-dereference error", rv["p"][i] == 0)
+                continue
+            except Exception as e:  # noqa: BLE001
+                d = ("error", H.classify(e))
+            ctx.check(f"element {i}: dereferencing does not move the stream", s.tell() == before)
+            if d[0] == "value":
+                a = R.rt.concretize(rv["p"][i])
+                try:
+                    tv, _ = H.ref_parser(ctx, cfg).parse(TT, data, a)
+                    ctx.check(f"element {i}: dereference == parse of the target at that offset", R.value_eq(TT, d[1], tv))
+                except R.RefEOF:
+                    ctx.check(f"element {i}: value only where the target can be parsed", False)
+    return run
+
+
 def make_nostream(case):
     TT, cfg = case["target"], case["cfg"]
     T = ["struct", "test", [["a", G.U8, None], ["p", ["ptr", TT], None], ["t", G.U8, None]], False]
@@ -209,5 +251,7 @@ def cases(tier, seed):
                             continue
                         cfg = {"endian": endian, "align": align, "compiled": compiled, "pointer": ptr}
                         yield {"label": f"{tname}* ptr={ptr}", "target": TT, "cfg": cfg, "nbytes": 14 if tier == "quick" else 18}
+                        if tname in ("u16", "inner") and ptr in ("uint8", "uint32"):
+                            yield {"label": f"{tname}*[2] ptr={ptr}", "target": TT, "cfg": cfg, "make": "make_array"}
                         if not compiled and not align:
                             yield {"label": f"{tname}* ptr={ptr} construct", "target": TT, "cfg": cfg, "make": "make_nostream"}
